@@ -105,7 +105,8 @@ class Result:
                 seen[key]["count"] += 1
                 continue
             seen[key] = {"count": 1, "r": r}
-        os.makedirs(EVID, exist_ok=True)
+        evid = os.path.join(EVID, "ext") if self.prop.startswith("X") else EVID
+        os.makedirs(evid, exist_ok=True)
         for key, v in seen.items():
             os.makedirs(REPLAYS, exist_ok=True)
             h = hashlib.sha1(key.encode()).hexdigest()[:10]
@@ -124,7 +125,7 @@ class Result:
         ev = {"property_id": self.prop, "tier": self.tier, "seed": self.seed, "level": self.level,
               "coverage": cov, "assumptions": self.assumptions, "wall_s": round(time.time() - self.t0, 2),
               "violations": len(seen)}
-        with open(os.path.join(EVID, "%s.json" % self.prop), "w") as f:
+        with open(os.path.join(evid, "%s.json" % self.prop), "w") as f:
             json.dump(ev, f, indent=1, default=str)
         status = "FAIL" if seen else "PASS"
         print("%s %s tier=%s seed=%d wall=%.1fs %s" % (
